@@ -25,6 +25,7 @@ func init() {
 			{ID: "C01.R7", Floor: 6, Doc: "Conn.calls accessed only under c.mu (constructor literal excepted)", Run: c01r7},
 			{ID: "C01.R8", Floor: 8, Doc: "writeHeader/readHeader/setLength/newFramer agree on header layout per version class", Run: c01r8},
 			{ID: "C01.R9", Floor: 1, Doc: "the framer handed to a caller owns its body: recv installs no connection-lifetime storage into it", Run: c01r9},
+			{ID: "C01.R10", Floor: 6, Doc: "an id in flight is not handed out again: the allocator claims and clears bits by compare-and-swap only (=C08.R2)", Run: c08r2},
 		},
 	})
 }
